@@ -121,5 +121,90 @@ def inv_facts():
     return [sp.Gt(radicand(Nv), 0), sp.Gt(solid_moment(1), 0)] + K.facts() + N.facts()
 
 
+def stock_real(cls_name, variant=0):
+    """a concrete off-origin instance of a vertex-based class built by the real constructor
+    (variant 0: chiral / irregular; variant 1: box / rectangle, which has circum- and in-balls)"""
+    from .common import real_coxeter
+    cox = real_coxeter()
+    sh = cox.shapes
+    pts3 = [[0.0, 0, 0], [3, 0, 0], [1, 2, 0], [0.5, 0.5, 1.5], [2, 1, -1]]
+    if variant == 1:
+        import itertools
+        pts3 = [[2.0 * x, 2.0 * y, 2.0 * z] for x, y, z in itertools.product((0, 1), repeat=3)]
+    pts3 = [[x + 4.0, y - 2.5, z + 1.25] for x, y, z in pts3]
+    quad = [[0.0, 0, 0], [3, 0, 0], [3, 1, 0], [0, 2, 0]]
+    if variant == 1:
+        quad = [[0.0, 0, 0], [2, 0, 0], [2, 2, 0], [0, 2, 0]]
+    quad = [[x + 1.5, y + 2.0, z] for x, y, z in quad]
+    lpoly = [[0.0, 0, 0], [3, 0, 0], [3, 1, 0], [1, 1, 0], [1, 3, 0], [0, 3, 0]]
+    if cls_name == "Polygon":
+        return sh.Polygon([[x + 2.0, y - 1.0, z] for x, y, z in lpoly])
+    if cls_name == "ConvexPolygon":
+        return sh.ConvexPolygon(quad)
+    if cls_name == "ConvexSpheropolygon":
+        return sh.ConvexSpheropolygon(quad, 0.5)
+    if cls_name == "ConvexPolyhedron":
+        return sh.ConvexPolyhedron(pts3)
+    if cls_name == "ConvexSpheropolyhedron":
+        return sh.ConvexSpheropolyhedron(pts3, 0.25)
+    if cls_name == "Polyhedron":
+        cp = sh.ConvexPolyhedron(pts3)
+        return sh.Polyhedron(cp.vertices.copy(), [list(map(int, f)) for f in cp.faces])
+    raise KeyError(cls_name)
+
+
+_stock = stock_real
+
+
+def setter_replay(cls_name, name, kind):
+    """replay of a refuted setter obligation on the real code"""
+    import math
+
+    def replay(model):
+        for variant in (0, 1):
+            r = replay_variant(model, variant)
+            if r[0] or "getter_raised" not in r[1]:
+                return r
+        return r
+
+    def replay_variant(model, variant):
+        def stock_real(c):
+            return _stock(c, variant)
+        obj = stock_real(cls_name)
+        try:
+            before = float(getattr(obj, name))
+        except Exception as e:  # noqa: BLE001
+            return False, {"class": cls_name, "member": name, "getter_raised": f"{type(e).__name__}: {e}"}
+        verts0 = obj.vertices.copy()
+        if kind == "nan":
+            targets = [float("nan")]
+        elif kind == "nonpositive":
+            targets = [-1.0, 0.0]
+        else:
+            targets = [2.5 * before]
+        for tv in targets:
+            obj = stock_real(cls_name)
+            try:
+                setattr(obj, name, tv)
+            except ValueError:
+                continue
+            except Exception as e:  # noqa: BLE001
+                return True, {"class": cls_name, "setter": name, "target": tv, "raised": f"{type(e).__name__}: {e}"}
+            v1 = obj.vertices
+            if kind in ("nan", "nonpositive"):
+                return True, {"class": cls_name, "setter": name, "target": repr(tv), "observed": "accepted without ValueError",
+                              "vertices_before": verts0.tolist(), "vertices_after": v1.tolist()}
+            got = float(getattr(obj, name))
+            if not math.isfinite(got) or abs(got - tv) > 1e-9 * abs(tv):
+                return True, {"class": cls_name, "setter": name, "target": tv, "readback": got}
+        return False, {"class": cls_name, "setter": name, "targets": [repr(t) for t in targets]}
+    return replay
+
+
 def c08_polytopes(chk, ld):
-    pass
+    from . import mutators as M
+    shapes = ld.load("coxeter.shapes")
+    tasks = []
+    for cls_name in M.POLY_CLASSES:
+        tasks.append((f"setters/{cls_name}", lambda c, cls_name=cls_name: M.size_setters(c, shapes, cls_name, setter_replay)))
+    chk.run_parallel(tasks)
